@@ -11,7 +11,7 @@ date first and the dependent is re-evaluated afterwards (C03).
 
 class Rec:
     __slots__ = ('built', 'failed', 'exists', 'who', 'seen', 'outver', 'content', 'always', 'watch_absent',
-                 'built_run', 'owner', 'phony', 'stamped', 'removed_mark', 'removed_run', 'extra', 'user_seen', 'tolerated', 'user_removed')
+                 'built_run', 'owner', 'phony', 'stamped', 'removed_mark', 'removed_run', 'extra', 'user_seen', 'tolerated', 'user_removed', 'static')
 
     def __init__(self):
         self.built = False        # a build has been attempted and recorded
@@ -32,6 +32,7 @@ class Rec:
         self.user_seen = False     # a command has met the user's version of this file
         self.user_removed = False  # a hand-made file that redo had seen in the place of this (phony) target was removed again
         self.tolerated = False     # the last successful build carried on after a dependency had failed
+        self.static = False        # its rule vanished and redo took the file for a source (redo has forgotten that it was a target)
         self.extra = {}            # checksummed targets redo built out of band on behalf of this target's script -> version
 
     def copy(self):
@@ -49,6 +50,8 @@ class Model:
         self.srcver = {}          # file name -> version of user-made changes (sources, .sel, .flag, watch paths, user edits of targets)
         self.run = 0
         self.cur_ctx = None
+        self.reader = None        # name -> bytes of the file as it is now (set by the history driver; read-only)
+        self.static = {}          # target whose rule is gone and whose file redo has taken for a source -> its bytes
 
     def copy(self):
         m = Model.__new__(Model)
@@ -57,6 +60,8 @@ class Model:
         m.srcver = dict(self.srcver)
         m.run = self.run
         m.cur_ctx = None
+        m.reader = self.reader
+        m.static = dict(self.static)
         return m
 
     # ---- edits (called by the history driver together with the file system change)
@@ -67,6 +72,15 @@ class Model:
         """The user removed the file of target `name`."""
         r = self.R[name]
         r.exists = False
+        if r.owner == 'user' and r.static:
+            # a former target that redo had already taken for a source: with the file gone it is nothing at all to redo
+            r.owner = 'none'
+            r.static = False
+            r.built = False
+            r.failed = False
+            r.content = None
+            r.user_seen = False
+            return
         if r.owner == 'user':
             r.owner = 'none'
             if r.user_seen:
@@ -215,6 +229,15 @@ class Model:
             return True
         return any(self.tainted(d, seen) for d in self.p.curdeps(n))
 
+    def closure_of(self, n, acc=None):
+        acc = [] if acc is None else acc
+        if n in acc or n not in self.R or not self.is_target(n):
+            return acc
+        acc.append(n)
+        for d in self.p.curdeps(n):
+            self.closure_of(d, acc)
+        return acc
+
     def removed_stamp_in_closure(self, n, seen):
         if n in seen or n not in self.R:
             return False
@@ -240,6 +263,8 @@ class Model:
             return True
         if n in ctx['done'] and forced and ctx['done'][n]:
             ctx['rechecked'].add(n)      # force-rebuilt after it was already checked in this run
+        if n in ctx['done'] and not forced and ctx['done'][n] and n not in ctx['ran'] and self.parallel_dirty_at_start(n, ctx):
+            del ctx['done'][n]      # only memoised as clean; see parallel_dirty_at_start
         if n in ctx['done'] and not forced:
             if not (ctx['done'][n] and self.tainted(n)):
                 return ctx['done'][n]
@@ -248,6 +273,13 @@ class Model:
             # checked by redo-stamp in this run): a may-run, decided by the observation
             ctx['maybe'].add(n)
             if not self.observed_more(ctx, {n}):
+                # n itself is not executed again, but a checksummed target below it that tolerated the failure is "maybe changed"
+                # on this new look and is rebuilt out of band on n's behalf (same checksum again: n stays as it is)
+                for e in self.closure_of(n):
+                    if e != n and self.R[e].stamped and self.tainted(e) and ctx['done'].get(e) and self.observed_more(ctx, {e}):
+                        ctx['maybe'].add(e)
+                        del ctx['done'][e]
+                        self.run_script(e, ctx, 'tolerated-failure-looked-at-again')
                 return ctx['done'][n]
             del ctx['done'][n]
         s, why = self.status(n, ctx, {}, forced)
@@ -293,15 +325,10 @@ class Model:
             ctx['maybe'].add(n)
             ctx['unsettled_overbuild'].add(n)      # it did turn out clean: an over-build owed to the single out-of-band round
             return self.run_script(n, ctx, 'unsettled-parallel:' + str(why))
-        if ctx.get('parallel') and ctx.get('start') is not None and self.obs_left(ctx, n) and n in ctx['start'].R and ctx['start'].R[n].built:
-            # parallel command: n came out clean only because, in this model's sequential order, a sibling had already dealt with
-            # what made it dirty (e.g. rebuilt a dependency that had failed last time, to the same checksum).  If n was definitely
-            # dirty in the state the command started from, a process that judged it before the sibling got there ran it: may-run.
-            st = ctx['start'].copy()
-            s0, why0 = st.status(n, st.new_ctx(keep=True), {})
-            if s0 == 'dirty':
-                ctx['maybe'].add(n)
-                return self.run_script(n, ctx, 'dirty-at-start:' + str(why0))
+        why0 = self.parallel_dirty_at_start(n, ctx)
+        if why0:
+            ctx['maybe'].add(n)
+            return self.run_script(n, ctx, 'dirty-at-start:' + str(why0))
         # settled clean: an extra edge may still have changed while settling
         trig = self.extra_trigger(n, ctx)
         if trig and ctx['obs'] is not None and self.obs_left(ctx, n):
@@ -309,6 +336,19 @@ class Model:
             return self.run_script(n, ctx, 'extra-edge:' + trig)
         ctx['done'][n] = True
         return True
+
+    def parallel_dirty_at_start(self, n, ctx):
+        """Parallel command: n comes out clean only because, in this model's sequential order, a sibling had already dealt with
+        what made it dirty (rebuilt a dependency that had failed last time to the same checksum, turned a target whose rule is
+        gone into a source, ...).  If n was definitely dirty in the state the command started from, a process that judged it
+        before the sibling got there ran it: may-run, decided by the observation.  -> reason or None"""
+        if not (ctx.get('parallel') and ctx.get('start') is not None and self.obs_left(ctx, n)):
+            return None
+        if n not in ctx['start'].R or not ctx['start'].R[n].built or not ctx['start'].is_target(n):
+            return None
+        st = ctx['start'].copy()
+        s0, why0 = st.status(n, st.new_ctx(keep=True), {})
+        return str(why0) if s0 == 'dirty' else None
 
     def extra_trigger(self, n, ctx):
         for e, v in self.R[n].extra.items():
@@ -354,6 +394,8 @@ class Model:
             for d in tops:
                 if failed_known and not ctx['keep']:
                     wr = self.would_run(d, ctx)
+                    if not wr and ctx.get('parallel') and self.obs_left(ctx, d):
+                        wr = {d}        # observed all the same: let update() see whether a parallel may-run rule explains it
                     if not wr:
                         continue
                     ctx['ambiguous'].add(d)
@@ -362,6 +404,11 @@ class Model:
                 if not self.update(d, ctx):
                     failed_known = True
             if failed_known:
+                if ctx.get('parallel') and ctx['obs'] is not None and self.obs_left(ctx, n):
+                    # parallel command: the dependency was being built (and failed) on a sibling's behalf; n was judged after the
+                    # failure had been recorded, found definitely dirty and started (its own request for the dependency then fails)
+                    ctx['maybe'].add(n)
+                    return self.run_script(n, ctx, 'dep-failed-elsewhere:' + str(why))
                 # n's script does not run and n is not up to date; a later request in the same run sees the
                 # failed dependency as definitely dirty and does execute n
                 ctx['notrun_failed'].add(n)
@@ -371,8 +418,39 @@ class Model:
             return None
         return self.run_script(n, ctx, why)
 
+    def no_rule(self, n, ctx, why):
+        """n is dirty but no .do file serves it (any more).  redo runs nothing: a file that is there becomes a source (it is never
+        regenerated or removed until the user deletes it, whatever rules appear later); without a file the request fails."""
+        r = self.R[n]
+        ctx['reasons'][n] = 'no-rule:' + str(why)
+        r.who = None
+        if r.exists and not r.phony:
+            old = self.ver(n)
+            r.owner = 'user'
+            r.static = True
+            r.user_seen = True
+            r.failed = False
+            r.stamped = False
+            new = self.ver(n)
+            for dn, dr in self.R.items():       # the file itself did not change: nobody who saw it sees a change
+                if dr.seen.get(n) == old:
+                    dr.seen[n] = new
+                if dr.extra.get(n) == old:
+                    dr.extra[n] = new
+            ctx.setdefault('became_static', set()).add(n)
+            self.static[n] = self.reader(n) if self.reader else None
+            ctx['done'][n] = True
+            return True
+        r.failed = True
+        r.built = True
+        r.built_run = self.run
+        ctx['done'][n] = False
+        return False
+
     def run_script(self, n, ctx, why):
         p, r = self.p, self.R[n]
+        if p.who(n) is None:
+            return self.no_rule(n, ctx, why)
         if ctx.get('abort_mode') and ctx['obs'] is not None and not self.observed_more(ctx, {n}):
             # failing parallel command without --keep-going: a script that was not observed was simply not started any
             # more because a failure was already known (schedule-dependent, C05); n keeps the state it had
@@ -398,6 +476,7 @@ class Model:
         r.built = True
         r.built_run = self.run
         r.user_removed = False
+        r.static = False
         depfail = who is None
         if who is not None:
             seen[p.chosen_do(n)] = self.ver(p.chosen_do(n))
@@ -413,6 +492,8 @@ class Model:
                     if t.get('split'):
                         break
                     wr = self.would_run(d, ctx)
+                    if not wr and ctx.get('parallel') and self.obs_left(ctx, d):
+                        wr = {d}        # observed all the same: let update() see whether a parallel may-run rule explains it
                     if not wr:
                         continue
                     ctx['ambiguous'].add(d)
@@ -451,7 +532,12 @@ class Model:
         r.owner = 'redo'
         r.phony = bool(t.get('phony'))
         r.exists = not r.phony
-        content = p.expected(n)
+        # (targets that have just turned into sources in this command keep their bytes: overlay over the program's user files)
+        p.overlay = {k: v for k, v in self.static.items() if v is not None}
+        try:
+            content = p.expected(n)
+        finally:
+            p.overlay = {}
         if t.get('stamp'):
             if (not r.stamped) or content != r.content:
                 r.outver += 1
@@ -558,6 +644,8 @@ class Model:
                 ctx['pending_forced'].remove(t)
             if failed_known and not keep:
                 wr = self.would_run(t, ctx)
+                if not wr and ctx.get('parallel') and self.obs_left(ctx, t):
+                    wr = {t}        # observed all the same: let update() see whether a parallel may-run rule explains it
                 if not wr and not forced:
                     continue
                 ctx['ambiguous'].add(t)
